@@ -187,6 +187,13 @@ where
         // solve for (Δx,Δz)
         // -----------
         lhs.τ = tau_num / tau_den;
+
+        // the denominator reduces to κ/τ plus rounding noise when every
+        // constraint is an equality, and vanishes with κ : no usable step then
+        if !lhs.τ.is_finite() {
+            return false;
+        }
+
         lhs.x.waxpby(T::one(), x1, lhs.τ, x2);
         lhs.z.waxpby(T::one(), z1, lhs.τ, z2);
 
